@@ -484,6 +484,72 @@ def rule_refresh(ctx):
                       "update_units_from_index_curve can return without aligning the %s unit (e.g. an early return when STRT "
                       "already agrees): STOP/STEP keep a different or empty unit in the written file" % key,
                       acfg.describe_path(pth) if pth else None)
+    # 5b. an index curve that has no unit of its own receives the common unit: in the world "curves declared, curves[0].unit
+    # empty" every test the curve-unit store depends on must let it through (the store matters exactly there)
+    from sa.consts import fold as _fold5, NotConst as _NC5
+    acd = ControlDependence(acfg)
+    adefs = {}
+    for a_ in walk_shallow(af.node):
+        if isinstance(a_, ast.Assign) and len(a_.targets) == 1 and isinstance(a_.targets[0], ast.Name):
+            adefs.setdefault(a_.targets[0].id, []).append(a_.value)
+
+    def _is_curves(e):
+        return isinstance(e, ast.Attribute) and e.attr == "curves"
+
+    def _is_curve0(e, depth=0):
+        if isinstance(e, ast.Subscript) and _is_curves(e.value) and isinstance(e.slice, ast.Constant) and e.slice.value == 0:
+            return True
+        if isinstance(e, ast.Name) and depth < 3 and e.id in adefs:
+            real = [d for d in adefs[e.id] if not (isinstance(d, ast.Constant) and d.value is None)]
+            return bool(real) and all(_is_curve0(d, depth + 1) for d in real)
+        return False
+
+    def _is_curve_unit(e, depth=0):
+        if isinstance(e, ast.Attribute) and e.attr == "unit" and _is_curve0(e.value):
+            return True
+        if isinstance(e, ast.Name) and depth < 3 and e.id in adefs:
+            real = [d for d in adefs[e.id] if not (isinstance(d, ast.Constant) and not d.value)]
+            return bool(real) and all(_is_curve_unit(d, depth + 1) for d in real)
+        return False
+
+    class _World(ast.NodeTransformer):
+        def visit(self, node):
+            if isinstance(node, ast.expr):
+                if _is_curve_unit(node):
+                    return ast.copy_location(ast.Constant(value=""), node)
+                if _is_curve0(node):
+                    return ast.copy_location(ast.Constant(value=1), node)
+                if _is_curves(node):
+                    return ast.copy_location(ast.Constant(value=(1,)), node)
+            return self.generic_visit(node)
+    c0_nodes = [n for n in acfg.nodes if n.kind == "stmt" and isinstance(n.ast, ast.Assign) and len(n.ast.targets) == 1
+                and isinstance(n.ast.targets[0], ast.Attribute) and n.ast.targets[0].attr == "unit" and _is_curve0(n.ast.targets[0].value)]
+    for n in c0_nodes:
+        import copy as _copy
+        site5 = "las.LASFile.update_units_from_index_curve#curve-without-unit"
+        blocked, unknown = None, None
+        for (tn, lab) in acd.transitive(n.id):
+            if acfg.nodes[tn].kind != "test":
+                continue
+            t = _World().visit(_copy.deepcopy(acfg.nodes[tn].ast))
+            try:
+                v = bool(_fold5(ast.fix_missing_locations(t)))
+            except _NC5:
+                unknown = acfg.nodes[tn].ast
+                continue
+            except Exception:  # noqa - not foldable
+                unknown = acfg.nodes[tn].ast
+                continue
+            if v != lab.startswith("true"):
+                blocked = acfg.nodes[tn].ast
+        if blocked is not None:
+            ctx.bad("WR.REFRESH", site5, af, n.ast, "the store `%s` is not reached for an index curve whose unit is empty (test `%s`): the "
+                    "curve keeps no unit while STRT/STOP/STEP carry the header's unit, and the next read-write cycle changes the file"
+                    % (unparse(n.ast), unparse(blocked)))
+        elif unknown is not None:
+            ctx.undecided("WR.REFRESH", site5, af, n.ast, "the test `%s` on the way to the curve-unit store could not be evaluated" % unparse(unknown))
+        else:
+            ctx.ok("WR.REFRESH", site5, af, n.ast, "an index curve with an empty unit receives the common unit (all guarding tests let it through)")
     # 6. the STEP computation is not suppressed for a two-sample index
     ucd = ControlDependence(ucfg)
     for node in ucfg.nodes:
